@@ -8,7 +8,7 @@ BASE = json.load(open('/root/.vp/BASELINE.json'))['cmd']
 TECH = "bounded symbolic execution of the real Go code (go/ssa lowered from /repo's working tree on every run) with an SMT solver (z3 5.1.0) deciding every branch feasibility and every assertion; counterexamples replayed natively against the real build"
 
 CHECKS = {
- "C10": ("every token sequence of bounded length over the expression alphabet is parsed by the real parser; acceptance and the truth table of the parsed rewrite are compared with a TypeScript reference by solver query; spelling variants through the real lexer",
+ "C10": ("every expression of the reference grammar up to the token bound (and every token sequence at a smaller bound) is parsed by the real parser; acceptance and the truth table of the parsed rewrite are compared with a TypeScript reference by solver query; spelling variants through the real lexer",
          "token choice and spelling variants are explored by forking (viable prefixes), not by the solver; expressions longer than the bound and nesting beyond 11 are outside; reference grammar/evaluator (60 lines) trusted", "4 C10"),
  "C12": ("the real lexer, parser and error rendering are executed on fully symbolic byte strings (all 256 values per byte) and on arbitrary token sequences up to the bound: no panic, bounded steps, positions sane, REST == gRPC positions",
          "inputs longer than the bound are outside; 'linear time' is only asserted as a step bound within the bound; fmt/strings.Builder modelled", "4 C12"),
@@ -34,7 +34,7 @@ CHECKS.update({
  "C15": ("every path of the real engine (operator set and recursive-permission configurations) returns: hangs are deadlocks of the modelled scheduler, runaway recursion exceeds the call-depth budget; storage calls bounded; cancellation before the call or inside storage call c (symbolic c); after return and context release no modelled goroutine is left blocked",
          ENGINE_NOTE + "; goroutines, channels, select, sync and context are the executor's models of Go's semantics", "4 C15"),
  "C16": ("the real Mapper (FromTuple/ToTuple/FromQuery/ToQuery/ToTree) on batches of tuples whose names are opaque symbolic strings with solver-decided equalities: position-wise round trip, right id in the right field, equal strings equal ids, read-only mapper never writes",
-         "the MappingManager is an injective table stub; the SQL mapping manager (paging by 100, insert-on-conflict) is not covered by this check", "4 C16"),
+         "engine-side runs: the MappingManager is an injective table stub; SQL-side runs: the real MapStringsToUUIDs / batchFromUUIDs / MapUUIDsToStrings on a model keto_uuid_mappings table (symbolic presence of pre-existing mappings, lookup page 1..3 or default, every order of the id map up to 3 entries, batches of 99..102 (thorough ..249) distinct names with repeats at the default page of 100); batch shapes are enumerated by forking, names in the SQL runs come from a fixed adversarial pool", "4 C16"),
 })
 
 HANDLER_NOTE = "handlers run with recording storage stubs, a capturing herodot writer, JSON decoding replaced by 'arbitrary value of the static type or an error', config getters overridden; HTTP routing/middleware and wire formats are outside"
